@@ -609,6 +609,9 @@ type c17CState struct {
 	B0    c17KS
 	Saved [3]c17KS
 	Has   [3]bool
+	// backups a client took of the second key name (their recorded name is k2)
+	Saved2 [3]c17KS
+	Has2   [3]bool
 }
 
 func (s c17CState) String() string {
@@ -629,7 +632,12 @@ func (s c17CState) String() string {
 // label of the presented setup ciphertext / signature / HMAC for decrypt /
 // verify / hmacverify (a trailing 2 in the kind: through the second key name),
 // for restore* 0 = the backup taken at setup, 1 = the client's own latest
-// backup (Slot = client).
+// backup of the key, 2 = its own latest backup of the second name (Slot =
+// client). restore / restore_noforce name the key, restore2* the second name,
+// restore_bn* give no name: the target is the name recorded in the backup.
+// newinstance / invalidate / evict are actions of the harness on the lock
+// manager (new instance over the same storage, cache invalidation, LRU
+// eviction); they change nothing in the reference.
 type c17CIn struct {
 	Kind string
 	Arg  int
@@ -638,11 +646,14 @@ type c17CIn struct {
 
 func (i c17CIn) String() string {
 	switch i.Kind {
-	case "rotate", "read", "read2", "allow_delete", "delete", "backup", "recreate":
+	case "rotate", "read", "read2", "allow_delete", "delete", "backup", "backup2", "recreate", "newinstance", "invalidate", "evict":
 		return i.Kind
-	case "restore", "restore_noforce", "restore2", "restore2_noforce":
-		if i.Arg == 1 {
+	case "restore", "restore_noforce", "restore2", "restore2_noforce", "restore_bn", "restore_bn_noforce":
+		switch i.Arg {
+		case 1:
 			return i.Kind + "(own backup)"
+		case 2:
+			return i.Kind + "(own backup of k2)"
 		}
 		return i.Kind + "(setup backup)"
 	}
@@ -779,11 +790,22 @@ func c17CStep(st c17CState, in c17CIn, out c17COut) (bool, c17CState) {
 		return true, st
 	}
 	switch in.Kind {
-	case "decrypt2", "verify2", "hmacverify2", "read2":
+	case "newinstance", "invalidate", "evict":
+		return out.OK, st
+	case "decrypt2", "verify2", "hmacverify2", "read2", "rotate2", "allow_delete2", "delete2":
 		in.Kind = strings.TrimSuffix(in.Kind, "2")
 		ok, ks := c17KStep(st.K2, in, out)
 		st.K2 = ks
 		return ok, st
+	case "backup2":
+		if st.K2.Deleted {
+			return out.NotFound, st
+		}
+		if !out.OK {
+			return false, st
+		}
+		st.Saved2[in.Slot], st.Has2[in.Slot] = st.K2, true
+		return true, st
 	case "backup":
 		if st.Deleted {
 			return out.NotFound, st
@@ -804,17 +826,23 @@ func c17CStep(st c17CState, in c17CIn, out c17COut) (bool, c17CState) {
 			st.c17KS = c17KS{Latest: 1, MinDec: 1}
 		}
 		return true, st
-	case "restore", "restore_noforce", "restore2", "restore2_noforce":
+	case "restore", "restore_noforce", "restore2", "restore2_noforce", "restore_bn", "restore_bn_noforce":
 		src := st.B0
-		if in.Arg == 1 {
+		switch in.Arg {
+		case 1:
 			if !st.Has[in.Slot] {
 				return out.Refused, st
 			}
 			src = st.Saved[in.Slot]
+		case 2:
+			if !st.Has2[in.Slot] {
+				return out.Refused, st
+			}
+			src = st.Saved2[in.Slot]
 		}
 		target := &st.c17KS
-		if strings.HasPrefix(in.Kind, "restore2") {
-			target = &st.K2
+		if strings.HasPrefix(in.Kind, "restore2") || (strings.HasPrefix(in.Kind, "restore_bn") && in.Arg == 2) {
+			target = &st.K2 // named, or no name given and the backup was taken of the second name
 		}
 		if strings.HasSuffix(in.Kind, "_noforce") && !target.Deleted {
 			return out.Refused, st
@@ -856,7 +884,8 @@ type c17CScen struct {
 	Init    c17CState // Init.B0: the key as it was when the setup backup was taken (restore scenarios)
 	Cache   string    // fresh | invalidated | warm | lru-fresh | lru-evicted | lru-warm
 	Clients [][]c17CIn
-	Light   bool // left out of the quick tier
+	Light   bool   // left out of the quick tier
+	Cell    string // restore matrix: the cell this scenario covers
 }
 
 // usesK2: some client restores onto the second key name.
@@ -884,7 +913,11 @@ func (sc *c17CScen) name() string {
 	if sc.Signing {
 		kt = "ed25519"
 	}
-	return fmt.Sprintf("%s cache=%s init=%v clients=[%s]", kt, sc.Cache, sc.Init, strings.Join(progs, " || "))
+	cell := ""
+	if sc.Cell != "" {
+		cell = " cell=(" + sc.Cell + ")"
+	}
+	return fmt.Sprintf("%s cache=%s%s init=%v clients=[%s]", kt, sc.Cache, cell, sc.Init, strings.Join(progs, " || "))
 }
 
 func c17CParse(prog string) []c17CIn {
@@ -929,7 +962,7 @@ func c17CScenarios(seed int64) []*c17CScen {
 		for ci, p := range progs {
 			ops := c17CParse(p)
 			for i := range ops {
-				if ops[i].Kind == "backup" || strings.HasPrefix(ops[i].Kind, "restore") {
+				if strings.HasPrefix(ops[i].Kind, "backup") || strings.HasPrefix(ops[i].Kind, "restore") {
 					ops[i].Slot = ci
 				}
 			}
@@ -1032,19 +1065,22 @@ func (r *c17CRec) String() string {
 }
 
 type c17CRun struct {
-	sc    *c17CScen
-	ctx   context.Context
-	raw   *logical.InmemStorage
-	st    logical.Storage
-	lm    *LockManager
-	sched *c17Sched
-	cache *c17GCache
-	plain []byte
-	cts   map[int]string // one ciphertext / signature per initial version
-	orig  map[int]string // fingerprint of the key that made cts[v]
-	b0    string         // backup taken at setup (restore scenarios)
-	own   [3]string      // latest backup taken by each client
-	stamp atomic.Int64
+	sc        *c17CScen
+	ctx       context.Context
+	raw       *logical.InmemStorage
+	st        logical.Storage
+	lm        *LockManager
+	sched     *c17Sched
+	cache     *c17GCache
+	plain     []byte
+	cts       map[int]string // one ciphertext / signature per initial version
+	orig      map[int]string // fingerprint of the key that made cts[v]
+	b0        string         // backup taken at setup (restore scenarios)
+	own       [3]string      // latest backup taken by each client
+	own2      [3]string      // latest backup each client took of the second name
+	cacheSize int
+	evictSeq  int
+	stamp     atomic.Int64
 
 	mu   sync.Mutex
 	hist []*c17CRec
@@ -1120,15 +1156,13 @@ func c17CNewRun(ctx context.Context, sc *c17CScen) (*c17CRun, error) {
 	if err != nil {
 		return nil, fmt.Errorf("setup: %v", err)
 	}
-	size := 0
 	if strings.HasPrefix(sc.Cache, "lru") {
-		size = 2
+		u.cacheSize = 2
 		if sc.Cache == "lru-warm" {
-			size = 8
+			u.cacheSize = 8
 		}
 	}
-	u.lm, err = NewLockManager(true, size)
-	if err != nil {
+	if err = u.newLM(); err != nil {
 		return nil, err
 	}
 	touch := func(name string, upsert bool) error {
@@ -1156,13 +1190,28 @@ func c17CNewRun(ctx context.Context, sc *c17CScen) (*c17CRun, error) {
 	if err != nil {
 		return nil, err
 	}
-	_, cached := u.lm.cache.Load(c17CKey)
-	if want := sc.Cache == "warm" || sc.Cache == "lru-warm"; cached != want {
-		return nil, fmt.Errorf("cache kind %s: key cached=%v before the clients start", sc.Cache, cached)
+	if sc.Cache != "disabled" {
+		_, cached := u.cache.inner.Load(c17CKey)
+		if want := sc.Cache == "warm" || sc.Cache == "lru-warm"; cached != want {
+			return nil, fmt.Errorf("cache kind %s: key cached=%v before the clients start", sc.Cache, cached)
+		}
 	}
-	u.cache = &c17GCache{inner: u.lm.cache, s: u.sched, inMiss: map[string]bool{}}
-	u.lm.cache = u.cache
 	return u, nil
+}
+
+// newLM installs a new lock manager of the scenario's kind (nothing cached),
+// its cache wrapped by the gate.
+func (u *c17CRun) newLM() error {
+	lm, err := NewLockManager(u.sc.Cache != "disabled", u.cacheSize)
+	if err != nil {
+		return err
+	}
+	u.lm = lm
+	u.cache = &c17GCache{inner: lm.cache, s: u.sched, inMiss: map[string]bool{}}
+	if lm.useCache {
+		lm.cache = u.cache
+	}
+	return nil
 }
 
 // with obtains the policy the way the request handlers do.
@@ -1329,17 +1378,77 @@ func (u *c17CRun) exec(in c17CIn, rec *c17CRec) (out c17COut) {
 		return u.withName(name, false, func(p *Policy) c17COut {
 			return c17COut{OK: true, F: [4]int{p.LatestVersion, p.MinDecryptionVersion, p.MinEncryptionVersion, p.MinAvailableVersion}}
 		})
-	case "restore", "restore_noforce", "restore2", "restore2_noforce":
+	case "allow_delete2":
+		return u.withName(c17CKey2, true, func(p *Policy) c17COut {
+			old := p.DeletionAllowed
+			p.DeletionAllowed = true
+			return u.persist(p, func() { p.DeletionAllowed = old })
+		})
+	case "delete2":
+		err := u.lm.DeletePolicy(u.ctx, u.st, c17CKey2)
+		switch {
+		case err == nil:
+			return c17COut{OK: true}
+		case strings.Contains(err.Error(), "not found"):
+			return c17COut{NotFound: true}
+		case strings.Contains(err.Error(), "deletion is not allowed"):
+			return c17CRefuse("%v", err)
+		}
+		return c17COut{Err: "delete: " + err.Error()}
+	case "backup2":
+		blob, err := u.lm.BackupPolicy(u.ctx, u.st, c17CKey2)
+		switch {
+		case err == nil:
+			u.own2[in.Slot] = blob
+			return c17COut{OK: true}
+		case strings.Contains(err.Error(), "not found") || strings.Contains(err.Error(), "key has been deleted"):
+			return c17COut{NotFound: true}
+		}
+		return c17COut{Err: "backup: " + err.Error()}
+	case "rotate2":
+		return u.withName(c17CKey2, true, func(p *Policy) c17COut {
+			if err := p.Rotate(u.ctx, u.st, crand.Reader); err != nil {
+				return c17COut{Err: "rotate: " + err.Error()}
+			}
+			return c17COut{OK: true, Ver: p.LatestVersion}
+		})
+	case "newinstance":
+		// a new lock manager over the same storage: nothing is cached
+		if err := u.newLM(); err != nil {
+			return c17COut{Err: err.Error()}
+		}
+		return c17COut{OK: true}
+	case "invalidate":
+		u.lm.InvalidatePolicy(c17CKey)
+		u.lm.InvalidatePolicy(c17CKey2)
+		return c17COut{OK: true}
+	case "evict":
+		for i := 0; i < 6; i++ {
+			u.evictSeq++
+			p, _, err := u.lm.GetPolicy(u.ctx, PolicyRequest{Upsert: true, Storage: u.raw, Name: fmt.Sprintf("filler%d", u.evictSeq), KeyType: KeyType_AES256_GCM96}, crand.Reader)
+			if err != nil || p == nil {
+				return c17COut{Err: fmt.Sprintf("filler key: %v", err)}
+			}
+			p.Unlock()
+		}
+		return c17COut{OK: true}
+	case "restore", "restore_noforce", "restore2", "restore2_noforce", "restore_bn", "restore_bn_noforce":
 		blob := u.b0
-		if in.Arg == 1 {
+		switch in.Arg {
+		case 1:
 			blob = u.own[in.Slot]
+		case 2:
+			blob = u.own2[in.Slot]
 		}
 		if blob == "" {
 			return c17CRefuse("no backup to restore")
 		}
 		name := c17CKey
-		if strings.HasPrefix(in.Kind, "restore2") {
+		switch {
+		case strings.HasPrefix(in.Kind, "restore2"):
 			name = c17CKey2
+		case strings.HasPrefix(in.Kind, "restore_bn"):
+			name = "" // the name recorded in the backup
 		}
 		err := u.lm.RestorePolicy(u.ctx, u.st, name, blob, !strings.HasSuffix(in.Kind, "_noforce"))
 		switch {
@@ -1539,7 +1648,7 @@ func c17CAcked(init c17CState, hist []*c17CRec, call, ret int64) (lb c17CState, 
 
 // ------------------------------------------------ scenarios with restores
 
-var c17CMutKinds = map[string]bool{"rotate": true, "min_dec": true, "min_enc": true, "trim": true, "allow_delete": true, "delete": true, "backup": true, "recreate": true, "restore": true, "restore_noforce": true, "restore2": true, "restore2_noforce": true}
+var c17CMutKinds = map[string]bool{"rotate": true, "min_dec": true, "min_enc": true, "trim": true, "allow_delete": true, "delete": true, "backup": true, "recreate": true, "restore": true, "restore_noforce": true, "restore2": true, "restore2_noforce": true, "restore_bn": true, "restore_bn_noforce": true, "backup2": true, "rotate2": true, "allow_delete2": true, "delete2": true}
 
 func c17CIsReset(kind string) bool {
 	return strings.HasPrefix(kind, "restore") || kind == "recreate"
@@ -1627,6 +1736,9 @@ func c17CImpossible(h *c17CRec, states []c17CState) string {
 	if strings.HasSuffix(kind, "2") && !strings.HasPrefix(kind, "restore") {
 		kind, second = strings.TrimSuffix(kind, "2"), true
 	}
+	if strings.HasPrefix(kind, "restore2") || (strings.HasPrefix(kind, "restore_bn") && h.In.Arg == 2) {
+		second = true
+	}
 	all := func(pred func(k c17KS) bool) bool {
 		for _, s := range states {
 			k := s.c17KS
@@ -1668,9 +1780,9 @@ func c17CImpossible(h *c17CRec, states []c17CState) string {
 		return "C17-acknowledged-config-not-visible"
 	case "rotate":
 		return "C17-acknowledged-rotate-not-visible"
-	case "restore_noforce", "restore2_noforce":
+	case "restore_noforce", "restore2_noforce", "restore_bn_noforce":
 		if o.OK {
-			return "C17-restore-without-force-replaced-existing-key"
+			return "C17-unforced-restore-replaced-existing-key"
 		}
 	}
 	return "C17-" + kind + "-answer-impossible-after-acknowledged-operations"
@@ -1740,8 +1852,9 @@ func (u *c17CRun) checkResets(v *c17CVerdict, r *kit.Result, hist []*c17CRec) {
 }
 
 // c17COnSecond: the operation addresses the second key name.
-func c17COnSecond(kind string) bool {
-	return strings.HasPrefix(kind, "restore2") || (strings.HasSuffix(kind, "2") && !strings.HasPrefix(kind, "restore"))
+func c17COnSecond(in c17CIn) bool {
+	kind := in.Kind
+	return strings.HasPrefix(kind, "restore2") || (strings.HasPrefix(kind, "restore_bn") && in.Arg == 2) || (strings.HasSuffix(kind, "2") && !strings.HasPrefix(kind, "restore"))
 }
 
 // c17CMarkFailed rewrites the answer "key not found / key has been deleted"
@@ -1757,7 +1870,7 @@ func c17CMarkFailed(hist []*c17CRec, r *kit.Result) {
 			continue
 		}
 		for _, rs := range hist {
-			if rs == h || !rs.Out.OK || (rs.In.Kind != "restore" && rs.In.Kind != "restore2") || c17COnSecond(rs.In.Kind) != c17COnSecond(h.In.Kind) {
+			if rs == h || !rs.Out.OK || (rs.In.Kind != "restore" && rs.In.Kind != "restore2" && rs.In.Kind != "restore_bn") || c17COnSecond(rs.In) != c17COnSecond(h.In) {
 				continue
 			}
 			if h.Call < rs.Ret && h.Ret > rs.Call {
@@ -1982,7 +2095,7 @@ func (u *c17CRun) quiesce(v *c17CVerdict, r *kit.Result) {
 	if sk.p != nil {
 		var lastReset *c17CRec
 		for _, h := range clientHist {
-			if h.Out.OK && (h.In.Kind == "restore" || h.In.Kind == "restore_noforce" || h.In.Kind == "recreate" || h.In.Kind == "delete") && (lastReset == nil || h.Ret > lastReset.Ret) {
+			if h.Out.OK && !c17COnSecond(h.In) && (strings.HasPrefix(h.In.Kind, "restore") || h.In.Kind == "recreate" || h.In.Kind == "delete") && (lastReset == nil || h.Ret > lastReset.Ret) {
 				lastReset = h
 			}
 		}
@@ -2141,7 +2254,7 @@ func c17COther(r *kit.Result) int {
 // acknowledged too".
 func c17CRestoreHolder(hist []*c17CRec) string {
 	for _, rs := range hist {
-		if rs.In.Kind != "restore" || !rs.Out.OK {
+		if (rs.In.Kind != "restore" && rs.In.Kind != "restore_bn") || c17COnSecond(rs.In) || !rs.Out.OK {
 			continue
 		}
 		for _, m := range hist {
@@ -2293,7 +2406,147 @@ func c17CTags(sc *c17CScen) []string {
 	return t
 }
 
+// ---------------------------------------------------- restore matrix
+
+// c17CMatrix enumerates, as single-client (sequential) scenarios, every cell
+// of {name given / taken from the backup} x {force / no force} x {target
+// absent / cached / in storage only after a new instance, an invalidation, an
+// LRU eviction, with caching disabled} x {target has the name recorded in the
+// backup / another name}, each preceded by seeded rotate / config / trim /
+// encrypt operations and followed by reads, decryptions of every setup output,
+// encryptions and rotations. Reference: a restore without force onto an
+// existing key is refused and changes nothing; otherwise the target's whole
+// state becomes the backup's.
+func c17CMatrix(seed int64) []*c17CScen {
+	rst := c17St(3, 2, 0)
+	rst.B0 = c17KS{Latest: 2, MinDec: 1, Orig: c17AllBits(2)}
+	rng := kit.NewRand(seed, 1_717_700)
+	pres := []string{"", "rotate", "min_dec=3", "encrypt=0", "rotate encrypt=0", "min_enc=3 encrypt=0", "min_enc=2 trim=2", "rotate min_dec=4"}
+	var out []*c17CScen
+	for si, signing := range []bool{false, true} {
+		for _, nameMode := range []string{"given", "from-backup"} {
+			for _, force := range []bool{true, false} {
+				for ti, tstate := range []string{"absent", "cached", "new-instance", "invalidated", "evicted", "caching-disabled"} {
+					for _, other := range []bool{false, true} {
+						if signing && (ti+len(out))%2 == 0 {
+							continue // the signing key runs half of the cells
+						}
+						cache := []string{"fresh", "lru-fresh"}[(ti+len(out))%2]
+						switch tstate {
+						case "evicted":
+							cache = "lru-fresh"
+						case "caching-disabled":
+							cache = "disabled"
+						}
+						sfx, two := "", ""
+						if !force {
+							sfx = "_noforce"
+						}
+						var prog []string
+						if p := pres[rng.Intn(len(pres))]; p != "" {
+							if signing {
+								p = strings.ReplaceAll(p, "encrypt", "sign")
+							}
+							prog = append(prog, p)
+						}
+						arg := 0
+						if other {
+							two = "2"
+							if nameMode == "from-backup" || tstate != "absent" {
+								// the second name must exist: created from the setup backup, then moved on
+								prog = append(prog, "restore2 rotate2")
+							}
+							if nameMode == "from-backup" {
+								prog = append(prog, "backup2 rotate2")
+								arg = 2
+							}
+						} else if rng.Chance(1, 2) {
+							prog = append(prog, "backup rotate")
+							arg = 1
+						}
+						switch tstate {
+						case "absent":
+							if !other || nameMode == "from-backup" {
+								prog = append(prog, "allow_delete"+two+" delete"+two)
+							}
+						case "cached":
+							prog = append(prog, "read"+two)
+						case "new-instance":
+							prog = append(prog, "read"+two+" newinstance")
+						case "invalidated":
+							prog = append(prog, "read"+two+" invalidate")
+						case "evicted":
+							prog = append(prog, "read"+two+" evict")
+						}
+						op := "restore" + two + sfx
+						if nameMode == "from-backup" {
+							op = "restore_bn" + sfx
+						}
+						prog = append(prog, fmt.Sprintf("%s=%d", op, arg))
+						consume := "decrypt"
+						produce := "encrypt"
+						if signing {
+							consume, produce = "verify", "sign"
+						}
+						if other {
+							prog = append(prog, fmt.Sprintf("read2 %s2=1 %s2=2 %s2=3 rotate2 %s2=3 read2 read %s=3", consume, consume, consume, consume, consume))
+						} else {
+							prog = append(prog, fmt.Sprintf("read %s=1 %s=2 %s=3 %s=0 rotate %s=3 %s=0 read", consume, consume, consume, produce, consume, produce))
+						}
+						sc := &c17CScen{Idx: len(out), Signing: signing, Init: rst, Cache: cache}
+						ops := c17CParse(strings.Join(prog, " "))
+						sc.Clients = [][]c17CIn{ops}
+						sc.Cell = fmt.Sprintf("name %s, force=%v, target %s, %s", nameMode, force, tstate, map[bool]string{false: "name recorded in the backup", true: "other name than the key under test"}[other])
+						out = append(out, sc)
+						_ = si
+					}
+				}
+			}
+		}
+	}
+	return out
+}
+
+const c17CMatrixRule = "case = one cell of {restore name given / taken from the backup} x {force, no force} x {target absent, cached, in storage only: new instance over the same storage, invalidated, LRU-evicted, caching disabled} x {target named as recorded in the backup / another name}, run sequentially on a key with three versions (setup backup taken at version 2, or a backup taken in the run), preceded by seeded rotate / config / trim / encrypt operations and followed by reads, decryption (verification) of every setup output through the restored name, encryption, rotation; reference: an unforced restore onto an existing key is refused and changes nothing, any other restore makes the target's whole state (latest, minimum versions, key of every version) the backup's; at the end storage must hold exactly the reference state, the served policy must equal the stored one and every returned output must open with the stored key of its version; non-trivial = distinct (cell, key type, operation sequence)"
+
+func c17CRunMatrix(t *testing.T, resultName, casePrefix string) {
+	seed := kit.Seed(17)
+	shard, nshards := kit.Shard()
+	r := kit.NewResult(t, resultName, seed, c17CMatrixRule)
+	defer r.Write(t)
+	ctx := context.Background()
+	reps := kit.N(4, 24)
+	for rep := 0; rep < reps; rep++ {
+		for _, sc := range c17CMatrix(seed + int64(rep)*1000) {
+			if (sc.Idx+rep)%nshards != shard {
+				continue
+			}
+			id := fmt.Sprintf("%s:%d:%d:%d", casePrefix, shard, rep, sc.Idx)
+			if !kit.WantCase(id) {
+				continue
+			}
+			before := r.NViolations()
+			c17COne(ctx, r, sc, id, nil, nil)
+			r.Count("cells_run", 1)
+			if r.NViolations() == before {
+				r.Count("cell held: "+sc.Cell, 1)
+			}
+		}
+	}
+	r.Require("cells_run", 100)
+	r.Require("restore_without_force_refused", 30)
+	r.Require("acknowledged_restore_bn", 10)
+	r.Require("acknowledged_restore_bn_noforce", 4)
+	r.Require("acknowledged_restore2_noforce", 4)
+	r.Require("acknowledged_restore_noforce", 4)
+	r.Require("ops_started_after_an_acknowledged_restore", 500)
+	r.Require("quiescence_storage_is_a_possible_final_state", 100)
+	r.Require("quiescence_cache_storage_agree", 100)
+}
+
 // ---------------------------------------------------------------- tests
+
+func TestVerif_C17_RestoreMatrix(t *testing.T) { c17CRunMatrix(t, "c17-policy-restore-matrix", "lmm") }
 
 const c17CRule = "case = one execution of 2-3 clients running short programs (raise min_decryption_version / min_encryption_version, rotate, trim, allow deletion + delete, encrypt, decrypt of an old-version ciphertext, sign, verify, read, LockManager.BackupPolicy, RestorePolicy with and without force of the backup taken at setup or of the client's own backup onto the same name and onto a second name, delete followed by creating the key again) on ONE key through a cache-enabled keysutil.LockManager whose cache accesses and storage operations are scheduling points; cache situations: key never loaded, invalidated, evicted from the LRU, cached (sync.Map and LRU); non-trivial = distinct (scenario, order of cache/storage accesses). Oracle: sequential reference {latest, min_dec, min_enc, min_avail, deletion, which versions hold the keys that made the setup outputs; a restore replaces the whole state of its target by the backup's}: every acknowledged change is visible to every operation started after the acknowledgement (scenarios with restores: every answer must be legal in one of the states the acknowledged state changes allow; an output acknowledged after the last restore must open with the key storage holds at quiescence), the history is linearizable (porcupine), and at quiescence the served policy equals the stored one and storage holds every acknowledged update"
 
